@@ -4,7 +4,8 @@
 From Coq Require Import NArith ZArith List String.
 From BU Require Import Base.Exn Base.Val Base.Bytes Gen.Consts Gen.SerbipConsts Gen.ConstsCardmon Extract.ApiCommon.
 From BU Require Model.Slip32 Model.LinkSlip32 Model.Bip38 Model.LinkAddr Model.ElectrumWallet Model.Brainwallet
-  Model.Bip32Kholaw Model.AddrAdaShelley Model.LinkAdaShelley Model.SubstratePath Model.LinkSubstrate.
+  Model.Bip32Kholaw Model.AddrAdaShelley Model.LinkAdaShelley Model.SubstratePath Model.LinkSubstrate
+  Model.AddrText Model.LinkCrc16 Lemmas.AddrInst.
 From BU Require Extract.Api_serbip Extract.Api_cardmon Extract.Api_paths.
 Import ListNotations.
 Open Scope string_scope.
@@ -60,6 +61,12 @@ Definition api (ask : string -> list val -> val) : list api_entry :=
   ("slip32c_deserialize", fun a => match a with [VB hpub; VB hpriv; VB s] =>
       rmap (fun r => match r with (k, path, cc, p) => VL [VB k; VL (map VN path); VB cc; VBool p] end)
         (LinkSlip32.slip32c_deserialize s (hpub, hpriv)) | _ => bad_call end);
+  (* ---- C09: Stellar addresses with CRC-16/XMODEM inside the model *)
+  ("crc16_xmodem_c", fun a => match a with [VB b] => Ok (VB (LinkCrc16.crc16_xmodem b)) | _ => bad_call end);
+  ("xlm_encode_c", fun a => match a with [VN t; VB pub] =>
+      rb (AddrText.xlm_encode LinkCrc16.crc16_xmodem AddrInst.b32_enc_nopad t pub) | _ => bad_call end);
+  ("xlm_decode_c", fun a => match a with [VN t; VB s] =>
+      rb (AddrText.xlm_decode valid_pub LinkCrc16.crc16_xmodem AddrInst.b32_dec t s) | _ => bad_call end);
   (* ---- C13: BIP-38 with the P2PKH address and UTF-8 inside the model *)
   ("bip38c_address", fun a => match a with [p; VN c] =>
       Ok (VB (LinkAddr.bip38_p2pkh sha256 rip pt k1_ser_c k1_ser_u (Api_serbip.pt_of p) (vbool c))) | _ => bad_call end);
